@@ -311,58 +311,21 @@ for node_name in it: node_names
         old(self).wf_estore(),
     ensures
         // [C01.add_edge.outcome]
-        old(self).self_loop_refused(*edge) && old(self).specs.self_loops_false_strategy == SelfLoopsFalseStrategy::Error ==> is_err_kind(r, ErrorKind::SelfLoopsFound),
-        old(self).self_loop_refused(*edge) && old(self).specs.self_loops_false_strategy == SelfLoopsFalseStrategy::Drop ==> r.is_ok(),
-        !old(self).self_loop_refused(*edge) && old(self).missing_refused(*edge) ==> is_err_kind(r, ErrorKind::NodeNotFound),
-        !old(self).self_loop_refused(*edge) && !old(self).missing_refused(*edge) && old(self).duplicate_refused(*edge) ==> is_err_kind(r, ErrorKind::DuplicateEdge),
-        !old(self).self_loop_refused(*edge) && !old(self).missing_refused(*edge) && !old(self).duplicate_refused(*edge) ==> r.is_ok(),
+        ae_outcome(*old(self), *edge, *final(self), r),
         // [C01.add_edge.error_is_noop]
-        r.is_err() ==> *final(self) == *old(self),
+        ae_error_is_noop(*old(self), *edge, *final(self), r),
         // [C01.add_edge.drop_is_noop]
-        old(self).self_loop_refused(*edge) ==> *final(self) == *old(self),
+        ae_drop_is_noop(*old(self), *edge, *final(self), r),
         // [C01.add_edge.ignored_duplicate_is_noop]
-        !old(self).self_loop_refused(*edge) && !old(self).missing_refused(*edge) && old(self).duplicate_ignored(*edge) ==> *final(self) == *old(self),
+        ae_ignored_duplicate_is_noop(*old(self), *edge, *final(self), r),
         // [C01.add_edge.nodes_created_source_first]
-        old(self).stores(*edge) ==> ({
-            &&& forall|i: int| 0 <= i < old(self).n() ==> final(self).nodes_vec@[i] == old(self).nodes_vec@[i]
-            &&& final(self).names() == names_after(old(self).names(), old(self).knows(edge.u), old(self).knows(edge.v), edge.u, edge.v)
-            &&& forall|i: int| old(self).n() <= i < final(self).n() ==> (#[trigger] final(self).nodes_vec@[i]).attributes.is_none()
-        }),
+        ae_nodes(*old(self), *edge, *final(self), r),
         // [C01.add_edge.wf_preserved]
-        final(self).wf_nodes(),
-        final(self).wf_estore(),
-        final(self).specs == old(self).specs,
+        ae_wf(*old(self), *edge, *final(self), r),
         // [C01.add_edge.store_effect]
-        old(self).stores(*edge) ==> ({
-            let c = final(self).canon(final(self).nodes_map@[edge.u], final(self).nodes_map@[edge.v]);
-            let ex = old(self).existed(*edge);
-            &&& final(self).knows(edge.u) && final(self).knows(edge.v)
-            &&& final(self).has_pair(c.0, c.1)
-            &&& forall|a: usize, b: usize| (a != c.0 || b != c.1) ==> #[trigger] final(self).has_pair(a, b) == old(self).has_pair(a, b)
-            &&& forall|a: usize, b: usize| (a != c.0 || b != c.1) && old(self).has_pair(a, b) ==> #[trigger] final(self).pair_list(a, b) == old(self).pair_list(a, b)
-            &&& (old(self).specs.multi_edges && ex) ==> ({
-                    &&& final(self).pair_list(c.0, c.1).len() == old(self).pair_list(c.0, c.1).len() + 1
-                    &&& forall|k: int| 0 <= k < old(self).pair_list(c.0, c.1).len() ==> final(self).pair_list(c.0, c.1)[k] == old(self).pair_list(c.0, c.1)[k]
-                    &&& *final(self).pair_list(c.0, c.1)[old(self).pair_list(c.0, c.1).len() as int] == old(self).stored_form(*edge)
-                })
-            &&& !(old(self).specs.multi_edges && ex) ==> ({
-                    &&& final(self).pair_list(c.0, c.1).len() == 1
-                    &&& *final(self).pair_list(c.0, c.1)[0] == old(self).stored_form(*edge)
-                })
-        }),
+        ae_store(*old(self), *edge, *final(self), r),
         // [C03.add_edge.traversal_effect]
-        old(self).stores(*edge) ==> ({
-            let c = final(self).canon(final(self).nodes_map@[edge.u], final(self).nodes_map@[edge.v]);
-            let ex = old(self).existed(*edge);
-            let replace = ex && !old(self).specs.multi_edges;
-            let w = edge.weight;
-            &&& forall|i: int| 0 <= i < final(self).n() ==> (#[trigger] final(self).successors_vec@[i])@ ==
-                    expected_row(pad_row(old(self).successors_vec@, i), i, c.0, c.1, w, ex, replace, !old(self).specs.directed)
-            &&& old(self).specs.directed ==> forall|i: int| 0 <= i < final(self).n() ==> (#[trigger] final(self).predecessors_vec@[i])@ ==
-                    expected_row(pad_row(old(self).predecessors_vec@, i), i, c.1, c.0, w, ex, replace, false)
-            &&& !old(self).specs.directed ==> forall|i: int| 0 <= i < final(self).n() ==> (#[trigger] final(self).predecessors_vec@[i])@ ==
-                    pad_row(old(self).predecessors_vec@, i)
-        }),
+        ae_traversal(*old(self), *edge, *final(self), r),
 //@ after let edge_already_exists = self.get_edge_by_indexes(u_node_index, v_node_index).is_ok();
         let ghost g1 = *self;
         proof {
@@ -387,6 +350,295 @@ for node_name in it: node_names
             // the store changed at the canonical key only: the list there is [ordered] or the old list plus ordered
             lemma_estore_after_store(g2, *self, ordered_edge_u, ordered_edge_v, ordered);
         }
+//@ end
+
+//@ extract fn src/graph/creation.rs add_edges props=C01,C20 ty=Graph
+//@ rewrite
+-> Result<(), Error>
+//@ with
+-> (r: Result<(), Error>)
+//@ rewrite
+for edge in edges
+//@ with
+for edge in it: edges
+//@ spec
+    requires
+        old(self).wf_nodes(),
+        old(self).wf_estore(),
+    ensures
+        // [C01.add_edges.prefix]
+        batch_rel(*old(self), edges_of(edges@), *final(self), r),
+        // [C01.add_edges.wf_preserved]
+        final(self).wf_nodes(),
+        final(self).wf_estore(),
+        final(self).specs == old(self).specs,
+//@ loop 1
+            invariant
+                self.wf_nodes(),
+                self.wf_estore(),
+                self.specs == old(self).specs,
+                exists|h: Seq<Graph<T, A>>| #[trigger] prefix_applied(*old(self), edges_of(edges@), h, it.index@, *self),
+//@ before for edge in edges
+        proof {
+            assert(prefix_applied(*old(self), edges_of(edges@), seq![*self], 0, *self));
+        }
+//@ before self.add_edge(edge)?;
+            let ghost s0 = *self;
+            let ghost h0 = choose|h: Seq<Graph<T, A>>| #[trigger] prefix_applied(*old(self), edges_of(edges@), h, it.index@, s0);
+//@ after self.add_edge(edge)?;
+            proof {
+                let h1 = h0.push(*self);
+                assert forall|j: int| 0 <= j < it.index@ + 1 implies add_edge_rel(h1[j], edges_of(edges@)[j], #[trigger] h1[j + 1], Ok(())) by {
+                    if j < it.index@ {
+                        assert(h1[j] == h0[j] && h1[j + 1] == h0[j + 1]);
+                    }
+                }
+                assert(prefix_applied(*old(self), edges_of(edges@), h1, it.index@ + 1, *self));
+            }
+//@ end
+
+//@ extract fn src/graph/creation.rs add_edge_tuples props=C01,C20 ty=Graph
+//@ rewrite
+-> Result<(), Error>
+//@ with
+-> (r: Result<(), Error>)
+//@ rewrite
+for edge in edges
+//@ with
+for edge in it: edges
+//@ spec
+    requires
+        old(self).wf_nodes(),
+        old(self).wf_estore(),
+    ensures
+        // [C01.add_edge_tuples.prefix]
+        batch_rel(*old(self), tuple_edges::<T, A>(edges@), *final(self), r),
+        // [C01.add_edge_tuples.wf_preserved]
+        final(self).wf_nodes(),
+        final(self).wf_estore(),
+        final(self).specs == old(self).specs,
+//@ loop 1
+            invariant
+                self.wf_nodes(),
+                self.wf_estore(),
+                self.specs == old(self).specs,
+                exists|h: Seq<Graph<T, A>>| #[trigger] prefix_applied(*old(self), tuple_edges::<T, A>(edges@), h, it.index@, *self),
+//@ before for edge in edges
+        proof {
+            assert(prefix_applied(*old(self), tuple_edges::<T, A>(edges@), seq![*self], 0, *self));
+        }
+//@ before self.add_edge(Edge::new(edge.0, edge.1))?;
+            let ghost s0 = *self;
+            let ghost h0 = choose|h: Seq<Graph<T, A>>| #[trigger] prefix_applied(*old(self), tuple_edges::<T, A>(edges@), h, it.index@, s0);
+//@ after self.add_edge(Edge::new(edge.0, edge.1))?;
+            proof {
+                let h1 = h0.push(*self);
+                assert forall|j: int| 0 <= j < it.index@ + 1 implies add_edge_rel(h1[j], tuple_edges::<T, A>(edges@)[j], #[trigger] h1[j + 1], Ok(())) by {
+                    if j < it.index@ {
+                        assert(h1[j] == h0[j] && h1[j + 1] == h0[j + 1]);
+                    }
+                }
+                assert(prefix_applied(*old(self), tuple_edges::<T, A>(edges@), h1, it.index@ + 1, *self));
+            }
+//@ end
+
+//@ extract fn src/graph/creation.rs add_edge_tuple props=C01,C20 ty=Graph
+//@ rewrite
+-> Result<(), Error>
+//@ with
+-> (r: Result<(), Error>)
+//@ spec
+    requires
+        old(self).wf_nodes(),
+        old(self).wf_estore(),
+    ensures
+        // [C01.add_edge_tuple.is_add_edge_of_unweighted_edge]
+        add_edge_rel(*old(self), Edge { u: u, v: v, attributes: None, weight: f64_nan() }, *final(self), r),
+//@ end
+
+//@ extract fn src/graph/creation.rs add_nodes props=C01,C20 ty=Graph
+//@ rewrite
+for node in nodes
+//@ with
+for node in it: nodes
+//@ spec
+    requires
+        old(self).wf_nodes(),
+    ensures
+        // [C01.add_nodes.wf_and_frame]
+        final(self).wf_nodes(),
+        old(self).wf_estore() ==> final(self).wf_estore(),
+        final(self).edges_map@ == old(self).edges_map@,
+        final(self).specs == old(self).specs,
+        // [C01.add_nodes.all_named_nodes_known_old_positions_kept]
+        forall|j: int| 0 <= j < nodes@.len() ==> final(self).knows(#[trigger] nodes@[j].name),
+        forall|k: T| old(self).knows(k) ==> final(self).knows(k) && #[trigger] final(self).nodes_map@[k] == old(self).nodes_map@[k],
+        final(self).n() >= old(self).n(),
+//@ loop 1
+            invariant
+                self.wf_nodes(),
+                old(self).wf_estore() ==> self.wf_estore(),
+                self.edges_map@ == old(self).edges_map@,
+                self.specs == old(self).specs,
+                forall|j: int| 0 <= j < it.index@ ==> self.knows(#[trigger] nodes@[j].name),
+                forall|k: T| old(self).knows(k) ==> self.knows(k) && #[trigger] self.nodes_map@[k] == old(self).nodes_map@[k],
+                self.n() >= old(self).n(),
+//@ end
+
+//@ extract fn src/graph/creation.rs new_from_nodes_and_edges props=C01,C20 ty=Graph
+//@ rewrite
+-> Result<Graph<T, A>, Error>
+//@ with
+-> (r: Result<Graph<T, A>, Error>)
+//@ spec
+    requires
+        key_model_ok::<T>(),
+    ensures
+        // [C01.new_from_nodes_and_edges.is_new_then_nodes_then_edges]
+        exists|g1: Graph<T, A>, g2: Graph<T, A>, r2: Result<(), Error>| {
+            &&& g1.wf_nodes() && g1.wf_estore() && g1.edges_map@.len() == 0 && g1.specs == specs
+            &&& forall|j: int| 0 <= j < nodes@.len() ==> g1.knows(#[trigger] nodes@[j].name)
+            &&& #[trigger] batch_rel(g1, edges_of(edges@), g2, r2)
+            &&& (r2.is_ok() ==> r.is_ok() && r.unwrap() == g2)
+            &&& (r2.is_err() ==> r.is_err())
+        },
+        // [C01.new_from_nodes_and_edges.result_wf]
+        r.is_ok() ==> r.unwrap().wf_nodes() && r.unwrap().wf_estore() && r.unwrap().specs == specs,
+//@ end
+
+//@ extract fn src/graph/ensure.rs ensure_directed props=C02,C20 ty=Graph
+//@ rewrite
+-> Result<(), Error>
+//@ with
+-> (r: Result<(), Error>)
+//@ spec
+    ensures
+        // [C02.guards.ensure_directed]
+        self.specs.directed ==> r.is_ok(),
+        !self.specs.directed ==> is_err_kind(r, ErrorKind::WrongMethod),
+//@ end
+
+//@ extract fn src/graph/ensure.rs ensure_undirected props=C02,C20 ty=Graph
+//@ rewrite
+-> Result<(), Error>
+//@ with
+-> (r: Result<(), Error>)
+//@ spec
+    ensures
+        // [C02.guards.ensure_undirected]
+        !self.specs.directed ==> r.is_ok(),
+        self.specs.directed ==> is_err_kind(r, ErrorKind::WrongMethod),
+//@ end
+
+//@ extract fn src/graph/ensure.rs ensure_not_multi_edges props=C02,C20 ty=Graph
+//@ rewrite
+-> Result<(), Error>
+//@ with
+-> (r: Result<(), Error>)
+//@ spec
+    ensures
+        // [C02.guards.ensure_not_multi_edges]
+        !self.specs.multi_edges ==> r.is_ok(),
+        self.specs.multi_edges ==> is_err_kind(r, ErrorKind::WrongMethod),
+//@ end
+
+//@ extract fn src/graph/query.rs get_successor_nodes_by_index props=C02,C03,C20 ty=Graph
+//@ rewrite
+-> &Vec<AdjacentNode>
+//@ with
+-> (r: &Vec<AdjacentNode>)
+//@ spec
+    requires
+        *node_index < self.successors_vec@.len(),
+    ensures
+        // [C02.row.successors_exact, C03.consumers.read_successor_row]
+        *r == self.successors_vec@[*node_index as int],
+//@ end
+
+//@ extract fn src/graph/query.rs get_predecessor_nodes_by_index props=C02,C03,C20 ty=Graph
+//@ rewrite
+-> &Vec<AdjacentNode>
+//@ with
+-> (r: &Vec<AdjacentNode>)
+//@ spec
+    requires
+        *node_index < self.predecessors_vec@.len(),
+    ensures
+        // [C02.row.predecessors_exact, C03.consumers.read_predecessor_row]
+        *r == self.predecessors_vec@[*node_index as int],
+//@ end
+
+//@ extract fn src/graph/query.rs get_successors_map props=C02,C20 ty=Graph
+//@ rewrite
+-> &HashMap<T, HashSet<T>>
+//@ with
+-> (r: &HashMap<T, HashSet<T>>)
+//@ spec
+    ensures
+        // [C02.maps.successors_map_is_the_store]
+        *r == self.successors,
+//@ end
+
+//@ extract fn src/graph/query.rs get_predecessors_map props=C02,C20 ty=Graph
+//@ rewrite
+-> &HashMap<T, HashSet<T>>
+//@ with
+-> (r: &HashMap<T, HashSet<T>>)
+//@ spec
+    ensures
+        // [C02.maps.predecessors_map_is_the_store]
+        *r == self.predecessors,
+//@ end
+
+// A5: assumed contract on an unverified graphrs function (values().flatten().collect() pipeline)
+//@ extract fn src/graph/query.rs get_all_edges ty=Graph
+//@ head
+    #[verifier::external_body]
+//@ rewrite
+-> Vec<&Arc<Edge<T, A>>>
+//@ with
+-> (r: Vec<&Arc<Edge<T, A>>>)
+//@ spec
+    ensures
+        r@.len() == self.stored_edge_count(),
+//@ end
+
+//@ extract fn src/graph/query.rs number_of_edges props=C09,C20 ty=Graph
+//@ rewrite
+-> usize
+//@ with
+-> (r: usize)
+//@ spec
+    ensures
+        // [C09.count.edges_is_len_of_all_edges]
+        r == self.stored_edge_count(),
+//@ end
+
+//@ extract fn src/graph/density.rs get_density props=C09,C20 ty=Graph
+//@ rewrite
+-> f64
+//@ with
+-> (r: f64)
+//@ rewrite
+self.edges.len() as f64
+//@ with
+vcast_usize_f64(self.edges.len())
+//@ rewrite
+self.nodes_vec.len() as f64
+//@ with
+vcast_usize_f64(self.nodes_vec.len())
+//@ spec
+    requires
+        key_model_ok::<T>(),
+    ensures
+        // [C09.density.formula]
+        self.edges@.len() == 0 ==> r == 0.0f64,
+        self.edges@.len() != 0 ==> ({
+            let m = usize_to_f64(self.edges@.len() as usize);
+            let n = usize_to_f64(self.nodes_vec@.len() as usize);
+            &&& self.specs.directed ==> r == fdiv(m, fmul(n, fsub(n, 1.0f64)))
+            &&& !self.specs.directed ==> r == fdiv(fmul(2.0f64, m), fmul(n, fsub(n, 1.0f64)))
+        }),
 //@ end
 
 //@ extract fn src/graph/query.rs get_node_by_index props=C02,C20 ty=Graph
